@@ -746,7 +746,7 @@ fn visit_stmt_shape(e: &syn::Expr) -> (Option<String>, Vec<String>) {
                 sm::pat_idents(il.pat, &mut ids);
                 let is_some = sm::tsc(il.pat).starts_with("Some(");
                 if is_some && il.else_block.is_none() {
-                    return (field_of(il.scrut), calls_in(il.then_block, ids.get(0).map(|s| s.as_str()).unwrap_or("")));
+                    return (field_of(il.scrut), calls_in(&il.then_block, ids.get(0).map(|s| s.as_str()).unwrap_or("")));
                 }
             }
             (None, vec![sm::tsc(e)])
@@ -827,6 +827,39 @@ fn optimizer_rules(cx: &mut Ctx, o: &Src) {
                 }
             }
         });
+        if !recursion {
+            // the same element-wise fold written as a loop: any run of statements of the arm
+            let stmts: Vec<String> = match sm::unblock(&arm.body) {
+                syn::Expr::Block(b) => b.block.stmts.iter().map(|s| sm::tsc(s)).collect(),
+                other => vec![sm::tsc(other)],
+            };
+            let mut all_stmts: Vec<Vec<String>> = vec![stmts];
+            sm::for_each_expr(&arm.body, |e| {
+                if let syn::Expr::Block(b) = e {
+                    all_stmts.push(b.block.stmts.iter().map(|s| sm::tsc(s)).collect());
+                }
+                if let syn::Expr::If(i) = e {
+                    all_stmts.push(i.then_branch.stmts.iter().map(|s| sm::tsc(s)).collect());
+                }
+                if let syn::Expr::Match(m) = e {
+                    for a in &m.arms {
+                        if let syn::Expr::Block(b) = &*a.body {
+                            all_stmts.push(b.block.stmts.iter().map(|s| sm::tsc(s)).collect());
+                        }
+                    }
+                }
+            });
+            for ss in &all_stmts {
+                for i in 0..ss.len() {
+                    for j in i + 1..=ss.len().min(i + 3) {
+                        let run: String = ss[i..j].concat();
+                        if sm::elementwise(&run, None) == Some(("elts".to_string(), "self.fold_expr(_elem)".to_string())) {
+                            recursion = true;
+                        }
+                    }
+                }
+            }
+        }
         if recursion {
             cx.ok("C12.O1", "elements are folded first, in order, by elts.into_iter().map(self.fold_expr).collect()");
         } else {
